@@ -105,6 +105,8 @@ def faults_for_key(key, bodies, upload_bodies, quick):
         out.append({'at': key, 'phase': 'before', 'kind': 'fatal_exc'})
     elif '/fs:' in key:
         out.append({'at': key, 'phase': 'before', 'kind': 'oserror'})
+    elif '/os:rename' in key:
+        out.append({'at': key, 'phase': 'before', 'kind': 'oserror'})  # the rename system call itself fails
     elif '/cb:on_queued' in key or '/cb:on_progress' in key:
         out.append({'at': key, 'phase': 'before', 'kind': 'exc'})
         out.append({'at': key, 'phase': 'before', 'kind': 'oserror'})
